@@ -101,10 +101,10 @@ func lockBalance(c *Ctx, sel func(class string) bool, what string) int {
 		pos := c.P.Pos(fn.Pos())
 		// union of untainted may-held locks over the returns
 		type li struct {
-			h        locks.Held
-			heldAt   []*ssa.Return
-			mustAll  bool
-			notHeld  *ssa.Return
+			h       locks.Held
+			heldAt  []*ssa.Return
+			mustAll bool
+			notHeld *ssa.Return
 		}
 		lockInfo := map[string]*li{}
 		var order []string
